@@ -32,6 +32,7 @@ MIN_EVALS = {"quick": 600, "thorough": 20000}
 FLOORS = {"cmp_dir": 80, "cmp_tar": 300, "cmp_zip": 80, "subdir_dir": 80, "subdir_file": 40, "special_excluded": 100,
           "symlink_compared": 100, "exec_compared": 100, "longname_compared": 30, "filtered_compared": 30, "mtime_checked": 200,
           "root_default": 80, "root_empty": 80, "emptydir_compared": 50}
+SHARDS = {"quick": 8}  # every worker pays the same start-up (imports are compiled per process); fewer, longer shards
 EXHAUSTIVE = {"quick": False, "thorough": False}
 ASSUMPTIONS = [
     "expected entries are read through the public Tree API of the exported RevisionTree (iter_entries_by_dir, get_file_text, "
